@@ -176,7 +176,7 @@ type checker struct {
 	wd        watchdog
 }
 
-// watchdog: "terminates" is observed as "returns within 60 s" (typical: 50 µs).
+// watchdog: "terminates" is observed as "returns within 90 s, observed by 45 passes of a monitor that runs every 2 s" (typical: 50 µs).
 type watchdog struct {
 	mu   sync.Mutex
 	next int64
@@ -186,6 +186,7 @@ type watchdog struct {
 type wdCase struct {
 	start time.Time
 	desc  caseDesc
+	seen  int // passes of the monitor that found the case still running (a suspended process does not age a case)
 }
 
 func (w *watchdog) enter(d caseDesc) int64 {
@@ -195,7 +196,7 @@ func (w *watchdog) enter(d caseDesc) int64 {
 		w.live = map[int64]wdCase{}
 	}
 	w.next++
-	w.live[w.next] = wdCase{time.Now(), d}
+	w.live[w.next] = wdCase{start: time.Now(), desc: d}
 	return w.next
 }
 
@@ -210,11 +211,14 @@ func (c *checker) watch() {
 		for {
 			time.Sleep(2 * time.Second)
 			c.wd.mu.Lock()
-			for _, lc := range c.wd.live {
-				if time.Since(lc.start) > 60*time.Second {
+			for id, lc := range c.wd.live {
+				lc.seen++
+				c.wd.live[id] = lc
+				if lc.seen >= 45 && time.Since(lc.start) > 90*time.Second {
 					d := lc.desc
 					c.wd.mu.Unlock()
-					c.viol("termination: a parser did not return within 60 s", "see case", d)
+					c.r.Capped("stopped by the watchdog: a parser call did not return")
+					c.viol("termination: a parser did not return within 90 s", "see case", d)
 					c.r.Finish()
 					return
 				}
@@ -715,6 +719,8 @@ func (c *checker) conformCert(b *built) {
 // conformOther: CRLs, keys and CSRs from the std encoders.
 func (c *checker) conformOther(b *built) {
 	d := caseDesc{Part: "a:conformance", Seed: b.Name, in: b.DER}
+	id := c.wd.enter(d)
+	defer c.wd.leave(id)
 	c.r.Eval(1)
 	cmp := func(e int, root string, std any, serr error) {
 		d.Entry = entries[e].name
@@ -1173,6 +1179,15 @@ func TestCheck(t *testing.T) {
 		pan, msg, stack := enum.Catch(func() { c.conformOther(others[i]) })
 		if pan {
 			r.Violation("harness-panic", msg+"\n"+stack, others[i].Name)
+		}
+	})
+
+	gno := generalNameOddities()
+	r.Set("a_general_name_forms", len(gno))
+	enum.ParFor(len(gno), nil, func(i int) {
+		pan, msg, stack := enum.Catch(func() { c.checkInput(gno[i].DER, caseDesc{Part: "a:general-name-forms", Seed: gno[i].Name}, false) })
+		if pan {
+			r.Violation("harness-panic", msg+"\n"+stack, gno[i].Name)
 		}
 	})
 
